@@ -85,7 +85,12 @@ func vhByteElem(storage *BasicSlabStorage, addr Address, a *Array, depth int, to
 	case 0:
 		_ = a.Append(vU64(vhU64("val")))
 	case 1:
-		_ = a.Append(vSomeValue{inner: vU64(vhU64("val"))})
+		if vhChoose("wrapbig", 2) == 1 {
+			// a wrapper around a value too large to inline: the reference sits INSIDE the wrapper
+			_ = a.Append(vSomeValue{inner: vBlob{n: 150}})
+		} else {
+			_ = a.Append(vSomeValue{inner: vU64(vhU64("val"))})
+		}
 	case 2:
 		_ = a.Append(vBlob{n: 150}) // larger than the inline limit => reference to a storable slab
 	case 3:
@@ -167,7 +172,9 @@ func VH_C07_MapBytes() {
 			key = bk
 		}
 		var val Value
-		switch vhChoose("valkind", 5) {
+		switch vhChoose("valkind", 6) {
+		case 5:
+			val = vSomeValue{inner: vBlob{n: 150}} // the reference sits inside a wrapper
 		case 0:
 			val = vU64(vhU64("val"))
 		case 1:
